@@ -8,6 +8,7 @@ use crate::{
 
 const CHECKPOINT_TAG: &str = "_system:checkpoint";
 const CHECKPOINT_CONTENT_TYPE: &str = "application/x-neumann-checkpoint";
+const STORED_AT_NANOS: &str = "stored_at_nanos";
 
 /// Persistence layer for checkpoints, backed by the blob store.
 pub struct CheckpointStorage;
@@ -31,6 +32,7 @@ impl CheckpointStorage {
             .with_meta("checkpoint_id", &state.id)
             .with_meta("checkpoint_name", &state.name)
             .with_meta("created_at", state.created_at.to_string())
+            .with_meta(STORED_AT_NANOS, Self::now_nanos().to_string())
             .with_created_by("system:checkpoint");
 
         if let Some(trigger) = &trigger_desc {
@@ -70,6 +72,11 @@ impl CheckpointStorage {
         let mut checkpoints = Vec::new();
         for artifact_id in artifact_ids {
             if let Ok(meta) = blob.metadata(&artifact_id).await {
+                let stored_at_nanos: u128 = meta
+                    .custom
+                    .get(STORED_AT_NANOS)
+                    .and_then(|s| s.parse().ok())
+                    .unwrap_or(0);
                 let info = CheckpointInfo {
                     id: meta
                         .custom
@@ -90,13 +97,27 @@ impl CheckpointStorage {
                     size: meta.size,
                     trigger: meta.custom.get("trigger").cloned(),
                 };
-                checkpoints.push(info);
+                checkpoints.push((stored_at_nanos, info));
             }
         }
 
-        checkpoints.sort_by(|a, b| b.created_at.cmp(&a.created_at));
+        // `created_at` has one-second resolution: checkpoints taken within the same second
+        // are ordered by the finer store time, so "newest first" (and with it retention)
+        // follows creation order instead of the blob scan order.
+        checkpoints.sort_by(|(a_nanos, a), (b_nanos, b)| {
+            b.created_at
+                .cmp(&a.created_at)
+                .then_with(|| b_nanos.cmp(a_nanos))
+        });
 
-        Ok(checkpoints)
+        Ok(checkpoints.into_iter().map(|(_, info)| info).collect())
+    }
+
+    fn now_nanos() -> u128 {
+        std::time::SystemTime::now()
+            .duration_since(std::time::UNIX_EPOCH)
+            .map(|d| d.as_nanos())
+            .unwrap_or(0)
     }
 
     /// Delete a checkpoint by its blob artifact ID.
